@@ -42,7 +42,7 @@ RULE = ("each run draws a history of 0-6 store operations followed by a target o
         "tick and fault kind); distinct = distinct (operation, tick, fault kind, outcome, statement)"
         "; non-trivial = executions in which a fault actually fired")
 PROBES = ["crash_fired", "error_fired", "replace_import", "merge_import", "defective_import",
-          "duplicate_host_import", "conflict_callback_raises", "object_answers_checked", "export_with_concurrent_verify", "conflict_callback_interrupted", "round_trip", "weird_hostname", "via_cli", "lookalike_family", "big_import_crash_case",
+          "duplicate_host_import", "conflict_callback_raises", "object_answers_checked", "error_with_engine_rollback", "export_with_concurrent_verify", "conflict_callback_interrupted", "round_trip", "weird_hostname", "via_cli", "lookalike_family", "big_import_crash_case",
           "crash_between_statement_and_commit"]
 COMPONENTS = {
     "real": ["nauyaca.security.tofu.TOFUDatabase", "sqlite3 on a real file (rollback journal, hot-"
@@ -537,9 +537,13 @@ def run_one(ch):
                             table={repr(k): v[:15] for k, v in got.items()}, **ctx0)
         sigs.add(((_opkey(target), 0, "none", outcome), False))
 
-        # 2. every tick x {crash, error}
+        # 2. every tick x {crash, error}; the error is either only reported, or reported after
+        # the engine rolled the transaction back by itself (SQLITE_FULL / IOERR in a write)
+        errkind = ch.pick("errflavour", ["error:disk I/O error", "error-rollback:database or disk is full"])
+        if errkind.startswith("error-rollback"):
+            res.stats["error_with_engine_rollback"] += 1
         for k in range(1, nticks + 1):
-            for kind in ("crash", "error:disk I/O error"):
+            for kind in ("crash", errkind):
                 restore(work)
                 crash_dir = os.path.join(scratch, "crashed")
                 shutil.rmtree(crash_dir, ignore_errors=True)
